@@ -74,4 +74,37 @@ def ownerLt : Path → Lt
 /-- a handle is bounded if its lifetime is not longer than its owner's -/
 def bounded (p : Path) : Bool := handleLt p == ownerLt p
 
+
+/-! ### Partially built values: the item-by-item construction of `[T; N]` (impls/array.rs)
+
+    Each item either is built (owning `heap` bytes of its own), or its deserializer returns an
+    error, or it panics. The array under construction lives in a `MaybeUninit`; the initialised
+    prefix is owned by a drop guard (`PartialArray`) that is forgotten only when all items are built. -/
+
+inductive ItemOutcome where
+  | built (heap : Nat)
+  | failed
+  | panicked
+  deriving Repr, DecidableEq
+
+inductive BuildResult where
+  | ok | err | unwound
+  deriving Repr, DecidableEq
+
+/-- Live heap bytes owned by what remains after the construction, and how it ended.
+    `acc` is what the guard owns so far. -/
+def buildArray : List ItemOutcome → Nat → Nat × BuildResult
+  | [], acc => (acc, .ok)                       -- guard forgotten: the array owns its items
+  | .built h :: rest, acc => buildArray rest (acc + h)
+  | .failed :: _, _ => (0, .err)                -- `?` returns: the guard drops the prefix
+  | .panicked :: _, _ => (0, .unwound)          -- unwinding: the guard drops the prefix
+
+/-- The construction without the guard (the code before the fixes 471234f / 728085c): the prefix
+    is never dropped. -/
+def buildArrayNoGuard : List ItemOutcome → Nat → Nat × BuildResult
+  | [], acc => (acc, .ok)
+  | .built h :: rest, acc => buildArrayNoGuard rest (acc + h)
+  | .failed :: _, acc => (acc, .err)
+  | .panicked :: _, acc => (acc, .unwound)
+
 end Eps
